@@ -268,6 +268,17 @@ class Verifier:
     def assume_invariants(self, ip, o, label):
         for cl, v in self.invariant_terms(ip, o):
             ip.ctx.assume(v)
+        # the proof now rests on every producer of such an object establishing / preserving the invariant: recorded so that
+        # the property closure (props.py) pulls those obligations in
+        ho = ip.ctx.obj(o)
+        clss = [ho.clsname()]
+        if isinstance(ho.cls, ClassInfo):
+            clss = [c.qual for c in self.repo.mro(ho.cls) if isinstance(c, ClassInfo)]
+        for cq in clss:
+            if self.reg.invariants.get(cq):
+                note = "assumes-inv %s" % cq
+                if note not in ip.ctx.notes:
+                    ip.ctx.notes.append(note)
 
     # ---- contract application at call sites (modular step) -------------------------------------------
     def callee_env(self, ip, c, finfo, args, kwargs):
